@@ -1,5 +1,112 @@
+import NA.Model.IosSession
 import NA.Core.IOUtil
-/-! Driver stub for C15 (not built yet): echoes its input. -/
+/-! Driver for C15 (core only). One case per line, fields separated by TAB; inside a field the
+characters `\ LF TAB CR BEL | ; = ,` are written `\\ \n \t \r \a \p \s \e \c`.
+
+* `find <s>`                                  → `none` or `<pre> TAB <msg> TAB <post>`   (bannerRe)
+* `strip <fixedIgnored> <active> <out> <pend>` → `<ok|abort…> TAB <out'> TAB <need> TAB <pend'>`  (stripReloadBanner)
+* `dialog <fixed> <changes |> <behavs |> <specials |>` →
+      `R=<result> TAB T=<lines |> TAB W=<cmd,line |> TAB G=<guardOK>,<pendingAfter>,<rearms>,<changes>`
+  behav = `<form>,<msg>,<out>` with form `N`, `A<pad>`, `B<off>`, `C<pad>`, `D`;
+  special = `<line>=<reply>;<reply>…`, a reply containing `<!>` where the device reads a line. -/
+namespace NA.Drv.C15
+open NA.Ios NA.IOUtil
+
+def unesc : List Char → List Char
+  | '\\' :: c :: r =>
+    (match c with
+     | 'n' => '\n' | 't' => '\t' | 'r' => '\r' | 'a' => '\x07' | 'p' => '|' | 's' => ';'
+     | 'e' => '=' | 'c' => ',' | x => x) :: unesc r
+  | c :: r => c :: unesc r
+  | [] => []
+
+def escC (c : Char) : List Char :=
+  match c with
+  | '\\' => ['\\', '\\'] | '\n' => ['\\', 'n'] | '\t' => ['\\', 't'] | '\r' => ['\\', 'r']
+  | '\x07' => ['\\', 'a'] | '|' => ['\\', 'p'] | ';' => ['\\', 's'] | '=' => ['\\', 'e']
+  | ',' => ['\\', 'c'] | x => [x]
+
+def esc (s : Str) : String := String.ofList (s.flatMap escC)
+def un (s : String) : Str := unesc s.toList
+
+def splitList (s : String) (sep : String) : List String := if s.isEmpty then [] else s.splitOn sep
+
+def b2s (b : Bool) : String := if b then "1" else "0"
+
+def showAbort : Abort → String
+  | .timeout p => s!"timeout:{esc p.toList}"
+  | .missingPrompt s => s!"missingPrompt:{esc s}"
+  | .unexpectedEcho c s => s!"unexpectedEcho:{esc c}:{esc s}"
+  | .unexpectedOutput c o => s!"unexpectedOutput:{esc c}:{esc o}"
+  | .writeMemUnexpected o => s!"writeMemUnexpected:{esc o}"
+  | .writeMemGiveUp => "writeMemGiveUp"
+
+def showRes {α} : Res α → String
+  | .ok _ => "ok"
+  | .abort e => "abort:" ++ showAbort e
+
+def parseForm (s : String) : Option Form :=
+  match s.toList with
+  | ['N'] => some .none
+  | ['D'] => some .after
+  | 'A' :: r => (String.ofList r).toNat?.map Form.before
+  | 'B' :: r => (String.ofList r).toNat?.map Form.inside
+  | 'C' :: r => (String.ofList r).toNat?.map Form.afterPrompt
+  | _ => none
+
+def parseBehav (s : String) : Option Behav :=
+  match s.splitOn "," with
+  | [f, m, o] => (parseForm f).map fun fm => { form := fm, msg := un m, out := un o }
+  | _ => none
+
+/-- split a reply text at `<!>` -/
+def splitMarker : Str → List Str
+  | [] => [[]]
+  | '<' :: '!' :: '>' :: r => [] :: splitMarker r
+  | c :: r =>
+    match splitMarker r with
+    | [] => [[c]]
+    | h :: t => (c :: h) :: t
+
+def parseSpecial (s : String) : Option (Str × List (List Str)) :=
+  match s.splitOn "=" with
+  | [l, rs] => some (un l, (splitList rs ";").map fun r => splitMarker (un r))
+  | _ => none
+
+def joinBarS (l : List Str) : String := "|".intercalate (l.map esc)
+
+def dummyDev : Device Unit := { step := fun _ _ => ((), []) }
+
+def answer (line : String) : String :=
+  match line.splitOn "\t" with
+  | ["find", s] =>
+    match bannerFind (un s) with
+    | none => "none"
+    | some (p, m, r) => s!"{esc p}\t{esc m}\t{esc r}"
+  | ["strip", act, out, pend] =>
+    let st : St Unit := { dev := (), pend := un pend, reloadActive := act == "1" }
+    match stripReloadBanner (σ := Unit) (un out) st with
+    | (.ok (o, need), st') => s!"ok\t{esc o}\t{b2s need}\t{esc st'.pend}"
+    | (.abort e, st') => s!"abort:{showAbort e}\t\t0\t{esc st'.pend}"
+  | ["dialog", fx, cs, bs, sp] =>
+    match (splitList bs "|").mapM parseBehav, (splitList sp "|").mapM parseSpecial with
+    | some behavs, some specials =>
+      let changes := (splitList cs "|").map un
+      let st : St SimSt := { dev := { queue := behavs } }
+      let (r, st') := applyCommands (simDevice specials) (fx == "1") changes st
+      let ls := linesOf st'.trace
+      let g := Guard.run ls
+      let ws := "|".intercalate (st'.warns.map fun (c, l) => esc c ++ "," ++ esc l)
+      s!"R={showRes r}\tT={joinBarS ls}\tW={ws}\tG={b2s (guardOK ls)},{b2s g.pending},{rearms ls},{g.changes}"
+    | _, _ => "bad-input"
+  | ["monitor", ls] =>
+    let l := (splitList ls "|").map un
+    let g := Guard.run l
+    s!"G={b2s (guardOK l)},{b2s g.pending},{rearms l},{g.changes}"
+  | _ => "bad-input"
+
+end NA.Drv.C15
+
 def main (_ : List String) : IO UInt32 := do
-  NA.IOUtil.eachLine id
+  NA.IOUtil.eachLine NA.Drv.C15.answer
   return 0
